@@ -13,6 +13,8 @@ import (
 	"path/filepath"
 	"sort"
 
+	"github.com/piotrnar/gocoin/client/common"
+	"github.com/piotrnar/gocoin/client/wallet"
 	"github.com/piotrnar/gocoin/lib/utxo"
 
 	"verifharness/conc"
@@ -239,6 +241,7 @@ func cmdRecord(args []string) {
 	nblocks := fs.Int("blocks", 12, "")
 	orders := fs.Int("orders", 6, "")
 	compress := fs.Bool("compress", false, "")
+	bal := fs.Bool("bal", false, "check the client/wallet balance index after every delivery (one chain at a time)")
 	outScen := fs.String("scenario-out", "scenario.json", "")
 	outTrace := fs.String("trace-out", "trace.ndjson", "")
 	fs.Parse(args)
@@ -264,6 +267,14 @@ func cmdRecord(args []string) {
 	os.WriteFile(*outScen, bj, 0660)
 
 	utxo.UTXO_WRITING_TIME_TARGET = 0
+	if *bal {
+		common.GocoinHomeDir = *dir + string(os.PathSeparator)
+		common.Testnet = true
+		common.CFG.Testnet = true
+		common.CFG.AllBalances.MinValue = minBal
+		common.CFG.AllBalances.UseMapCnt = 3
+		common.ApplyBalMinVal()
+	}
 	w, err := conc.NewWorld(sc, *dir, *compress)
 	if err != nil {
 		fmt.Fprintln(os.Stderr, "world:", err)
@@ -282,6 +293,11 @@ func cmdRecord(args []string) {
 			os.Exit(2)
 		}
 		n := w.OpenNode(d, nil)
+		if *bal {
+			common.BlockChain = n.Ch
+			wallet.Disable()
+			wallet.LoadBalancesFromUtxo()
+		}
 		enc.Encode(map[string]interface{}{"ev": "reset", "b": 0, "acc": false, "later": false, "tip": 0, "unew": []conc.UtxoEnt{}, "gone": []int{}})
 		nev++
 		var order []int
@@ -309,6 +325,15 @@ func cmdRecord(args []string) {
 			}
 			for _, p := range pr {
 				problems = append(problems, fmt.Sprintf("order %d block %d: %s", o, b, p))
+			}
+			if *bal {
+				if rnd.Intn(7) == 0 { // the index rebuilt from the populated set must agree as well
+					wallet.Disable()
+					wallet.LoadBalancesFromUtxo()
+				}
+				if f := checkBalances(n, ents); f != nil {
+					problems = append(problems, fmt.Sprintf("balance index after order %d block %d: %s", o, b, f.what))
+				}
 			}
 			gone := []int{}
 			have := map[int]bool{}
